@@ -151,7 +151,23 @@ def gen_spec(rng, nmax=300, dec=None, with_vel=None, force=None):
             'dec': d, 'format': fmt, 'declare_count': bool(rng.random() < 0.5) if 'declare' not in force else force['declare'],
             'with_vel': vel, 'number_class': ncls, 'coord_class': ccls,
             'use_writelines': bool(rng.random() < 0.2), 'as_tuple': bool(rng.random() < 0.3),
-            'schedule': gen_schedule(rng, n) if rng.random() < 0.35 else None}
+            'schedule': gen_schedule(rng, n) if rng.random() < 0.35 else None,
+            # how the writer's attributes are used: set once before writing, set to something else first and then to the
+            # final value, or (box and title, which go to the file's frame) set after the records were written
+            'attr_history': gen_attr_history(rng, force)}
+
+
+def gen_attr_history(rng, force):
+    if 'attrs' in force:
+        return force['attrs']
+    r = rng.random()
+    if r < 0.6:
+        return None
+    if r < 0.85:
+        other = gen_box(rng, ['vector', 'triclinic-negative', 'triclinic', 'diagonal'][int(rng.integers(0, 4))])
+        return {'kind': 'reassigned', 'box_first': other.tolist(), 'title_first': 'an earlier title that is replaced',
+                'ints': bool(rng.random() < 0.3)}
+    return {'kind': 'after-records'}
 
 
 def gen_schedule(rng, n):
@@ -186,9 +202,17 @@ def write_spec(spec, path, GroFile=None, upto=None, close=True):
     if GroFile is None:
         from gaddlemaps.parsers import GroFile
     g = GroFile(path, 'w')
+    hist = spec.get('attr_history') or {}
+    late = hist.get('kind') == 'after-records' and close and upto is None
+    if hist.get('kind') == 'reassigned':
+        if spec['box'] is not None:
+            first = np.array(hist['box_first'])
+            g.box_matrix = np.rint(first).astype(int) if hist.get('ints') else first
+        if spec['title'] is not None:
+            g.comment = hist['title_first']
     if spec['title'] is not None:
-        g.comment = spec['title']
-    if spec['box'] is not None:
+        g.comment = spec['title']               # the title goes out with the first record: always set before
+    if spec['box'] is not None and not late:
         g.box_matrix = np.array(spec['box'])
     if spec['declare_count']:
         g.natoms = len(spec['records']) if upto is None else len(spec['records'])
@@ -215,6 +239,9 @@ def write_spec(spec, path, GroFile=None, upto=None, close=True):
     else:
         for row in rows:
             g.writeline(row)
+    if late:
+        if spec['box'] is not None:
+            g.box_matrix = np.array(spec['box'])
     if close:
         g.close()
     return g
